@@ -5,6 +5,7 @@ package websocket
 
 import (
 	"bufio"
+	"compress/flate"
 	"context"
 	"errors"
 	"fmt"
@@ -502,6 +503,13 @@ func (mr *msgReader) Read(ctx context.Context, gen uint64, p []byte) (n int, err
 		return n, io.EOF
 	}
 	if err != nil {
+		var corrupt flate.CorruptInputError
+		if mr.flate && errors.As(err, &corrupt) {
+			// The payload is not a DEFLATE stream: the message is lost, and with it
+			// the position in the frame stream. Fail the connection like for any
+			// other frame that cannot be accepted.
+			mr.c.writeError(ctx, StatusInvalidFramePayloadData, corrupt)
+		}
 		return n, fmt.Errorf("failed to read: %w", err)
 	}
 	return n, nil
